@@ -39,6 +39,18 @@ fn run_one(fmt: &str, bytes: &[u8], tmp: &str) -> String {
         },
         "wdt" => wow_wdt::WdtReader::new(Cursor::new(bytes.to_vec()), wow_wdt::version::WowVersion::WotLK).read().map(|_| "ok".to_string()).map_err(|_| "parse".to_string()),
         "wdl" => wow_wdl::parser::WdlParser::new().parse(&mut Cursor::new(bytes.to_vec())).map(|_| "ok".to_string()).map_err(|_| "parse".to_string()),
+        // codec: byte 0 = compression mask, bytes 1..5 = expected size (LE), rest = payload of wow_mpq::decompress
+        "codec" => {
+            if bytes.len() < 5 { return "ERR:short".to_string(); }
+            let size = u32::from_le_bytes([bytes[1], bytes[2], bytes[3], bytes[4]]) as usize;
+            wow_mpq::decompress(&bytes[5..], bytes[0], size).map(|o| format!("out={}", o.len())).map_err(|_| "decode".to_string())
+        }
+        // attrs: byte 0..4 = block count (LE), rest = content of an (attributes) file
+        "attrs" => {
+            if bytes.len() < 4 { return "ERR:short".to_string(); }
+            let n = u32::from_le_bytes([bytes[0], bytes[1], bytes[2], bytes[3]]) as usize;
+            wow_mpq::special_files::Attributes::parse(&bytes[4..].to_vec().into(), n).map(|_| "ok".to_string()).map_err(|_| "parse".to_string())
+        }
         _ => Err("unknown-format".into()),
     };
     match r { Ok(s) => format!("OK:{s}"), Err(s) => format!("ERR:{s}") }
